@@ -202,6 +202,55 @@ int main(int argc, char** argv) {
     }
     for (int i = 0; i < NS; i++) if (sk[i]) Ev("Obs").i("id", i).raw("r", proj(*sk[i])).emit();
   }
+  if (vt::argl(argc, argv, "--widths", 1)) {
+    // every packing width of the compressed form on both paths: an ordered exact compact sketch whose entries are
+    // chosen so that the largest delta needs exactly w bits (made by overwriting the entries of a real uncompressed
+    // image), more than one block of 8 plus a remainder, serialized compressed to bytes and to a stream, restored
+    // from both.  The abstract content of the injected image is logged (Inject) and everything after is validated
+    // against it.
+    Ev("Begin").i("seg", segments).str("mode", "widths").emit();
+    const int NC = 4, NB = 4;
+    std::unique_ptr<compact_theta_sketch> cv[NC];
+    for (int w = 1; w <= 63; w++) {
+      const int n = 9 + (int)((w * 5 + g.below(3)) % 20);
+      auto u = update_theta_sketch::builder().set_lg_k(12).build();
+      for (int i = 0; i < n; i++) u.update((uint64_t)i);
+      auto img = u.compact(true).serialize();
+      const size_t first = img.size() - (size_t)n * 8;
+      std::vector<uint64_t> ent; uint64_t h = 0;
+      const int big = (int)g.below((uint64_t)n);     // the delta that carries the top bit
+      for (int i = 0; i < n; i++) {
+        const int sw = w <= 58 ? w : 55;               // keep the sum below 2^63
+        uint64_t d = sw >= 64 ? g.next() : (g.next() & ((1ULL << sw) - 1));
+        if (i == big) d = (1ULL << (w - 1)) | (w > 1 ? (g.next() & ((1ULL << (w - 1)) - 1)) : 0);
+        if (d == 0) d = 1;
+        if (i != big && w < 64 && (d >> (w - 1)) > 1) d &= (1ULL << w) - 1;
+        h += d; ent.push_back(h); memcpy(img.data() + first + 8 * (size_t)i, &h, 8);
+      }
+      if (h >= MAXT) continue;
+      const int c = w % NC, b = w % NB;
+      cv[c].reset(new compact_theta_sketch(compact_theta_sketch::deserialize(img.data(), img.size())));
+      Ev("Inject").i("dst", c).i("w", w).h("thetaH", MAXT).h("maxH", MAXT).b("empty", false).hl("ent", ent).raw("r", proj(*cv[c])).emit();
+      auto bytes = cv[c]->serialize_compressed();
+      std::ostringstream os; cv[c]->serialize_compressed(os); std::string st = os.str();
+      Ev("Ser").i("src", c).i("blob", b).i("w", w).b("compressed", true).i("hdr", 0).i("total", (long long)bytes.size())
+        .i("size", (long long)bytes.size()).i("advertised", (long long)cv[c]->get_serialized_size_bytes(true))
+        .i("maxsize", (long long)compact_theta_sketch::get_max_serialized_size_bytes(12)).i("entryBits", bytes.size() > 3 ? bytes[3] : -1)
+        .bytes("img", bytes.data(), bytes.size()).bytes("simg", st.data(), st.size()).emit();
+      for (int path = 0; path < 2; path++) {
+        const int c2 = (c + 1 + path) % NC;
+        long long consumed;
+        if (path == 0) { cv[c2].reset(new compact_theta_sketch(compact_theta_sketch::deserialize(bytes.data(), bytes.size()))); consumed = (long long)bytes.size(); }
+        else {   // the STREAM image through the stream reader
+          std::istringstream is(st + std::string(16, '\x5a'));
+          cv[c2].reset(new compact_theta_sketch(compact_theta_sketch::deserialize(is))); consumed = (long long)is.tellg();
+        }
+        auto re = cv[c2]->serialize_compressed();
+        Ev("Deser").i("blob", b).i("dst", c2).str("path", path == 0 ? "bytes" : "stream").i("consumed", consumed)
+          .bytes("reimg", re.data(), re.size()).raw("r", proj(*cv[c2])).emit();
+      }
+    }
+  }
   vt::close_out();
   fprintf(stderr, "theta_rec: %ld events\n", vt::g_events);
   return 0;
